@@ -25,3 +25,17 @@ Theorem C05_dispatch_list :
                   ANames [t_meta; t_meco]; AAny].
 Proof. exact dispatch_list_as_modelled. Qed.
 Print Assumptions C05_dispatch_list.
+
+(* the typed boxes inside moov: the accessor chain of the model descends along the chain of child types the SOURCE's accessors ask
+   for (Gen/Mp4BoxTypes.v, regenerated on every run), and the model's box-type constants are the source's #[box_type] strings *)
+From MS Require Import Gen.Mp4BoxTypes Mp4.BoxTypesProofs.
+Theorem C05_accessor_chain_is_source : forall (A : Type) (kids : list node) (g : node -> res (node * A)),
+  trak_co kids g = chain_by ACCESSOR_CHAIN_SRC kids (fun sk => stbl_co sk g).
+Proof. exact @trak_co_is_src. Qed.
+Print Assumptions C05_accessor_chain_is_source.
+
+Theorem C05_box_types_are_source :
+  t_trak = TRAKS_ITEM_TYPE_SRC /\ [t_mdia; t_minf; t_stbl] = ACCESSOR_CHAIN_SRC /\
+  t_stco = BOXTYPE_StcoBox_SRC /\ t_co64 = BOXTYPE_Co64Box_SRC /\ t_moov = BOXTYPE_MoovBox_SRC /\ t_ftyp = BOXTYPE_FtypBox_SRC.
+Proof. exact box_types_are_src. Qed.
+Print Assumptions C05_box_types_are_source.
